@@ -34,6 +34,11 @@ pub struct Subject {
     pub infinite_source: bool,
     /// Number of extra Nop steps to explore for sources.
     pub horizon: usize,
+    /// Outputs of the spec are a (long) prefix requirement, not an exact one
+    /// (infinite sources).
+    pub prefix_spec: bool,
+    /// Derive-generated sync block: check the per-call accounting rule.
+    pub sync_check: bool,
     /// Skip the "retires when inputs end" clause (documented `nevereof`-style
     /// blocks still have to wait on an ended input, so this is rarely needed).
     pub no_retire_check: bool,
@@ -340,6 +345,128 @@ fn spec_oracle(e: &Exec, spec: &Spec) -> Option<(String, String)> {
     None
 }
 
+/// C16 oracle for sources.
+fn source_oracle(sub: &Subject, e: &Exec) -> Option<(String, String)> {
+    for s in &e.steps {
+        if let Verdict::Panic(p) = &s.verdict {
+            return Some(("panic".into(), format!("work() panicked: {p}")));
+        }
+        if let Verdict::Err(p) = &s.verdict {
+            return Some(("error".into(), format!("work() failed: {p}")));
+        }
+    }
+    let spec = sub.spec.as_ref()?;
+    let eof_at = e.steps.iter().position(|s| matches!(s.verdict, Verdict::Eof));
+    for (j, o) in e.outputs.iter().enumerate() {
+        if let Some(b) = &o.bad_tag_pos {
+            return Some(("tag".into(), format!("output {j}: {b}")));
+        }
+        let Some(Some(want)) = spec.samples.get(j) else { continue };
+        let n = o.samples.len();
+        if n > want.len() || o.samples[..] != want[..n] {
+            let i = first_diff(&o.samples, want);
+            return Some((
+                "too-much-or-wrong".into(),
+                format!(
+                    "output {j}: emitted {n} samples, data x repeat is {} samples; first difference at {i}: got {:?} want {:?}",
+                    want.len(),
+                    o.samples.get(i),
+                    want.get(i)
+                ),
+            ));
+        }
+        if sub.infinite_source {
+            if let Some(k) = eof_at {
+                return Some(("eof-on-infinite".into(), format!("step {k}: EOF from a source set to repeat forever")));
+            }
+            continue;
+        }
+        if let Some(k) = eof_at {
+            // Everything emitted by the time EOF is reported?
+            if n != want.len() {
+                return Some((
+                    "eof-early".into(),
+                    format!("step {k}: EOF after {n} of {} samples", want.len()),
+                ));
+            }
+        } else if e.completed {
+            return Some((
+                "no-eof".into(),
+                format!("emitted {n} of {} samples and went quiet without ever reporting EOF", want.len()),
+            ));
+        }
+        if let Some(Some(wt)) = spec.tags.get(j) {
+            if eof_at.is_some() {
+                let mut got = o.tags.clone();
+                let mut wt = wt.clone();
+                got.sort();
+                wt.sort();
+                if got != wt {
+                    return Some(("marker-tags".into(), format!("output {j}: tags {got:?}, want {wt:?}")));
+                }
+            }
+        }
+    }
+    None
+}
+
+/// C19 oracle: per-call accounting of a derive-generated sync block.
+fn sync_oracle(e: &Exec, ids_in: &[usize], ids_out: &[usize]) -> Option<(String, String)> {
+    for (k, s) in e.steps.iter().enumerate() {
+        match &s.verdict {
+            Verdict::Panic(p) => return Some(("panic".into(), format!("work() panicked: {p}"))),
+            Verdict::Err(p) => return Some(("error".into(), format!("work() failed: {p}"))),
+            _ => {}
+        }
+        let avail: Vec<usize> = s.ins.iter().map(|i| i.0).collect();
+        let space: Vec<usize> = s.outs.iter().map(|o| o.0).collect();
+        let m = avail.iter().chain(space.iter()).copied().min().unwrap_or(0);
+        let consumed: Vec<usize> = s.ins.iter().map(|i| i.0 - i.1.min(i.0)).collect();
+        let produced: Vec<usize> = s.outs.iter().map(|o| o.0 - o.1.min(o.0)).collect();
+        if m > 0 {
+            if consumed.iter().any(|c| *c != m) || produced.iter().any(|p| *p != m) {
+                return Some((
+                    "step-count".into(),
+                    format!(
+                        "step {k}: inputs had {avail:?}, outputs had room for {space:?}: must process exactly {m}, but consumed {consumed:?} produced {produced:?}"
+                    ),
+                ));
+            }
+            if s.verdict != Verdict::Again {
+                return Some(("verdict".into(), format!("step {k}: processed {m} steps but verdict is {}", s.verdict.short())));
+            }
+        } else {
+            if consumed.iter().any(|c| *c != 0) || produced.iter().any(|p| *p != 0) {
+                return Some((
+                    "moved-when-blocked".into(),
+                    format!("step {k}: inputs {avail:?} outputs {space:?}: nothing can be processed, but consumed {consumed:?} produced {produced:?}"),
+                ));
+            }
+            match &s.verdict {
+                Verdict::WaitStream { id, need, .. } => {
+                    let ok_in = ids_in.iter().position(|x| x == id).map(|i| avail[i] == 0);
+                    let ok_out = ids_out.iter().position(|x| x == id).map(|j| space[j] == 0);
+                    if !(ok_in == Some(true) || ok_out == Some(true)) || *need != 1 {
+                        return Some((
+                            "wrong-wait".into(),
+                            format!(
+                                "step {k}: inputs {avail:?} outputs {space:?}: waits (need {need}) on a stream that is not the empty input / full output"
+                            ),
+                        ));
+                    }
+                }
+                v => {
+                    return Some((
+                        "verdict".into(),
+                        format!("step {k}: nothing can be processed but the verdict is {}", v.short()),
+                    ));
+                }
+            }
+        }
+    }
+    None
+}
+
 pub struct EnvCfg {
     pub prop: &'static str,
     pub horizon: usize,
@@ -379,9 +506,14 @@ pub fn explore(rep: &mut Report, sub: &Subject, cfg: &EnvCfg) {
             // A panic with everything delivered at once is caused by the
             // content (or the mere use) of the input: C15 territory. C08 also
             // says "never a panic".
-            let owner = if prop == "C15" { "C15" } else { "C08" };
+            let owner = if matches!(prop, "C15" | "C16" | "C19") { prop } else { "C08" };
             fail(rep, owner, "panic-one-shot", format!("work() panicked in the one-shot run: {p}"), &ref_start, &one_shot);
             return;
+        }
+    }
+    if prop == "C16" {
+        if let Some((clause, msg)) = source_oracle(sub, &reference) {
+            fail(rep, "C16", &clause, msg, &ref_start, &one_shot);
         }
     }
     if prop == "C10" {
@@ -437,7 +569,23 @@ pub fn explore(rep: &mut Report, sub: &Subject, cfg: &EnvCfg) {
             let verdicts: Vec<String> = e.steps.iter().take(e.explicit).map(|s| s.verdict.short()).collect();
             distinct_outcomes.insert(fnv(format!("{verdicts:?}").as_bytes()));
             let r = match prop {
-                "C08" | "C16" | "C19" => chunking_oracle(&e, &reference).map(|(c, m)| ("C08", c, m)),
+                "C16" => source_oracle(sub, &e).map(|(c, m)| ("C16", c, m)),
+                "C19" => {
+                    let mut r = chunking_oracle(&e, &reference).map(|(c, m)| ("C19", c, m));
+                    if r.is_none() && sub.sync_check {
+                        r = sync_oracle(&e, &ii, &oo).map(|(c, m)| ("C19", c, m));
+                    }
+                    if r.is_none() && e.completed {
+                        if let Some(s) = &sub.spec {
+                            r = spec_oracle(&e, s).map(|(c, m)| ("C19", c, m));
+                            if r.is_none() {
+                                r = tag_oracle(&e, s).map(|(c, m)| ("C19", c, m));
+                            }
+                        }
+                    }
+                    r
+                }
+                "C08" => chunking_oracle(&e, &reference).map(|(c, m)| ("C08", c, m)),
                 "C09" => verdict_oracle(sub, &e, &ii, &oo).map(|(c, m)| ("C09", c, m)),
                 "C12" => sub.spec.as_ref().and_then(|s| tag_oracle(&e, s)).map(|(c, m)| ("C12", c, m)),
                 "C10" => {
@@ -452,7 +600,6 @@ pub fn explore(rep: &mut Report, sub: &Subject, cfg: &EnvCfg) {
             if let Some((p, clause, msg)) = r {
                 // Chunking failures found under other properties' runs belong
                 // to C08.
-                let p = if prop == "C16" && p == "C08" { "C16" } else if prop == "C19" && p == "C08" { "C19" } else { p };
                 fail(rep, p, &clause, msg, start, acts);
             } else if matches!(prop, "C09" | "C12" | "C10") {
                 // Record panics as foreign (C08) failures so that the evidence
@@ -509,14 +656,34 @@ pub fn replay_one(rep: &mut Report, sub: &Subject, prop: &'static str, start: &S
             }
         }
     }
+    if prop == "C16" {
+        out.clear();
+        if let Some((c, m)) = source_oracle(sub, &e) {
+            out.push(("C16".into(), c, m));
+        }
+    }
+    if prop == "C19" {
+        let mut v: Vec<(String, String, String)> = vec![];
+        for (p, c, m) in out.drain(..) {
+            if p == "C08" || p == "C10" || p == "C12" {
+                v.push(("C19".into(), c, m));
+            }
+        }
+        if sub.sync_check {
+            if let Some((c, m)) = sync_oracle(&e, &ii, &oo) {
+                v.push(("C19".into(), c, m));
+            }
+        }
+        out = v;
+    }
     for s in &reference.steps {
         if let Verdict::Panic(p) = &s.verdict {
+            out.push((prop.to_string(), "panic-one-shot".into(), p.clone()));
             out.push(("C08".into(), "panic-one-shot".into(), p.clone()));
             out.push(("C15".into(), "panic-one-shot".into(), p.clone()));
         }
     }
     for (p, c, m) in out {
-        let p2 = if (prop == "C16" || prop == "C19") && p == "C08" { prop.to_string() } else { p };
-        rep.violation(format!("{p2}/{}/{c}", sub.block), m, json!({}));
+        rep.violation(format!("{p}/{}/{c}", sub.block), m, json!({}));
     }
 }
